@@ -107,27 +107,35 @@ package mq
 
 //@ func (*Connect).UnmarshalBinary
 //@   assigns $heap
+//@   ensures p.fixed == old(p.fixed)                                    #C16
 //@   ensures $elems - old($elems) <= len(data)                          #C05
 //@ func (*ConnAck).UnmarshalBinary
 //@   assigns $heap
+//@   ensures p.fixed == old(p.fixed)                                    #C16
 //@   ensures $elems - old($elems) <= len(data)                          #C05
 //@ func (*Publish).UnmarshalBinary
 //@   assigns $heap
+//@   ensures p.fixed == old(p.fixed)                                    #C16
 //@   ensures $elems - old($elems) <= len(data)                          #C05
 //@ func (*PubAck).UnmarshalBinary
 //@   assigns $heap
+//@   ensures p.fixed == old(p.fixed)                                    #C16
 //@   ensures $elems - old($elems) <= len(data)                          #C05
 //@ func (*PubRec).UnmarshalBinary
 //@   assigns $heap
+//@   ensures p.fixed == old(p.fixed)                                    #C16
 //@   ensures $elems - old($elems) <= len(data)                          #C05
 //@ func (*PubRel).UnmarshalBinary
 //@   assigns $heap
+//@   ensures p.fixed == old(p.fixed)                                    #C16
 //@   ensures $elems - old($elems) <= len(data)                          #C05
 //@ func (*PubComp).UnmarshalBinary
 //@   assigns $heap
+//@   ensures p.fixed == old(p.fixed)                                    #C16
 //@   ensures $elems - old($elems) <= len(data)                          #C05
 //@ func (*Subscribe).UnmarshalBinary
 //@   assigns $heap
+//@   ensures p.fixed == old(p.fixed)                                    #C16
 //@   ensures $elems - old($elems) <= len(data)                          #C05
 //@   loop 0:
 //@     invariant 0 <= b.i && b.i <= len(data) && b.data == data
@@ -136,6 +144,7 @@ package mq
 //@     decreases b.err == nil ? 1 + len(data) - b.i : 0
 //@ func (*SubAck).UnmarshalBinary
 //@   assigns $heap
+//@   ensures p.fixed == old(p.fixed)                                    #C16
 //@   ensures $elems - old($elems) <= len(data)                          #C05
 //@   ensures len(p.reasonCodes) <= len(data)                            #C05
 //@   loop 0:
@@ -144,6 +153,7 @@ package mq
 //@     decreases len(p.reasonCodes) - rangeindex
 //@ func (*Unsubscribe).UnmarshalBinary
 //@   assigns $heap
+//@   ensures p.fixed == old(p.fixed)                                    #C16
 //@   ensures $elems - old($elems) <= len(data)                          #C05
 //@   loop 0:
 //@     invariant 0 <= b.i && b.i <= len(data) && b.data == data
@@ -152,6 +162,7 @@ package mq
 //@     decreases b.err == nil ? 1 + len(data) - b.i : 0
 //@ func (*UnsubAck).UnmarshalBinary
 //@   assigns $heap
+//@   ensures p.fixed == old(p.fixed)                                    #C16
 //@   ensures $elems - old($elems) <= len(data)                          #C05
 //@   ensures len(p.reasonCodes) <= len(data)                            #C05
 //@   loop 0:
@@ -160,15 +171,19 @@ package mq
 //@     decreases len(p.reasonCodes) - rangeindex
 //@ func (*PingReq).UnmarshalBinary
 //@   assigns $heap
+//@   ensures p.fixed == old(p.fixed)                                    #C16
 //@   ensures $elems - old($elems) <= len(data)                          #C05
 //@ func (*PingResp).UnmarshalBinary
 //@   assigns $heap
+//@   ensures p.fixed == old(p.fixed)                                    #C16
 //@   ensures $elems - old($elems) <= len(data)                          #C05
 //@ func (*Disconnect).UnmarshalBinary
 //@   assigns $heap
+//@   ensures p.fixed == old(p.fixed)                                    #C16
 //@   ensures $elems - old($elems) <= len(data)                          #C05
 //@ func (*Auth).UnmarshalBinary
 //@   assigns $heap
+//@   ensures p.fixed == old(p.fixed)                                    #C16
 //@   ensures $elems - old($elems) <= len(data)                          #C05
 //@ func (*Undefined).UnmarshalBinary
 //@   assigns $heap
@@ -191,9 +206,6 @@ package mq
 //@   requires w != nil
 //@   requires specConnectOK(p.flags, p.will)
 
-//@ func (*Connect).fill
-//@   inline
-//@   requires specConnectOK(p.flags, p.will)
 
 //@ func (*Connect).WriteTo
 //@   inline
@@ -441,6 +453,9 @@ package mq
 //@   ensures $N - old($pos) >= rl ==> $pos == old($pos) + rl                                        #C06 #C07
 //@   ensures $N - old($pos) < rl ==> result0 == nil && result1 != nil && $pos == $N                 #C08
 //@   ensures $N - old($pos) < rl && ($N == old($pos) || !tIsEOF()) ==> errIsT(result1)              #C08
+//@   ensures result0 != nil ==> specPacketKind(result0) == int(old(f.fixed) >> 4)                   #C16
+//@   ensures result0 != nil && specPacketKind(result0) != 0 ==> specFixedOf(result0) == old(f.fixed)   #C16
+//@   ensures result0 != nil ==> ival(result0) != 0 && fresh(payload(result0, *Undefined))           #C16 #C14
 
 //@ func ReadPacket
 //@   requires r != nil
@@ -458,3 +473,111 @@ package mq
 //@   ensures a == 0 ==> errIsT(result1)                                                             #C08
 //@   ensures !(hdr && a >= flen) && a < 6 + (hdr ? flen : 0) && !tIsEOF() ==> errIsT(result1)       #C08
 //@   ensures result0 != nil ==> hdr && a >= flen                                                    #C08
+
+// ---------------------------------------------------------------- packet encoders: fill
+
+//@ func (*Connect).fill
+//@   requires 0 <= i
+//@   requires specConnectOK(p.flags, p.will)
+//@   assigns b[i:len(b)]
+//@   ensures result >= i + 2
+//@   ensures i < len(b) && result <= len(b) ==> b[i] == byte(p.fixed)                      #C16 #C02
+
+//@ func (*ConnAck).fill
+//@   requires 0 <= i
+//@   assigns b[i:len(b)]
+//@   ensures result >= i + 2
+//@   ensures i < len(b) && result <= len(b) ==> b[i] == byte(p.fixed)                      #C16 #C02
+
+//@ func (*Publish).fill
+//@   requires 0 <= i
+//@   assigns b[i:len(b)]
+//@   ensures result >= i + 2
+//@   ensures i < len(b) && result <= len(b) ==> b[i] == byte(p.fixed)                      #C16 #C02
+
+//@ func (*PubAck).fill
+//@   requires 0 <= i
+//@   assigns b[i:len(b)]
+//@   ensures result >= i + 2
+//@   ensures i < len(b) && result <= len(b) ==> b[i] == byte(p.fixed)                      #C16 #C02
+
+//@ func (*PubRec).fill
+//@   requires 0 <= i
+//@   assigns b[i:len(b)]
+//@   ensures result >= i + 2
+//@   ensures i < len(b) && result <= len(b) ==> b[i] == byte(p.fixed)                      #C16 #C02
+
+//@ func (*PubRel).fill
+//@   requires 0 <= i
+//@   assigns b[i:len(b)]
+//@   ensures result >= i + 2
+//@   ensures i < len(b) && result <= len(b) ==> b[i] == byte(p.fixed)                      #C16 #C02
+
+//@ func (*PubComp).fill
+//@   requires 0 <= i
+//@   assigns b[i:len(b)]
+//@   ensures result >= i + 2
+//@   ensures i < len(b) && result <= len(b) ==> b[i] == byte(p.fixed)                      #C16 #C02
+
+//@ func (*Subscribe).fill
+//@   requires 0 <= i
+//@   assigns b[i:len(b)]
+//@   ensures result >= i + 2
+//@   ensures i < len(b) && result <= len(b) ==> b[i] == byte(p.fixed)                      #C16 #C02
+
+//@ func (*SubAck).fill
+//@   requires 0 <= i
+//@   assigns b[i:len(b)]
+//@   ensures result >= i + 2
+//@   ensures i < len(b) && result <= len(b) ==> b[i] == byte(p.fixed)                      #C16 #C02
+
+//@ func (*Unsubscribe).fill
+//@   requires 0 <= i
+//@   assigns b[i:len(b)]
+//@   ensures result >= i + 2
+//@   ensures i < len(b) && result <= len(b) ==> b[i] == byte(p.fixed)                      #C16 #C02
+
+//@ func (*UnsubAck).fill
+//@   requires 0 <= i
+//@   assigns b[i:len(b)]
+//@   ensures result >= i + 2
+//@   ensures i < len(b) && result <= len(b) ==> b[i] == byte(p.fixed)                      #C16 #C02
+
+//@ func (*PingReq).fill
+//@   requires 0 <= i
+//@   assigns b[i:len(b)]
+//@   ensures result >= i + 2
+//@   ensures i < len(b) && result <= len(b) ==> b[i] == byte(p.fixed)                      #C16 #C02
+
+//@ func (*PingResp).fill
+//@   requires 0 <= i
+//@   assigns b[i:len(b)]
+//@   ensures result >= i + 2
+//@   ensures i < len(b) && result <= len(b) ==> b[i] == byte(p.fixed)                      #C16 #C02
+
+//@ func (*Disconnect).fill
+//@   requires 0 <= i
+//@   assigns b[i:len(b)]
+//@   ensures result >= i + 2
+//@   ensures i < len(b) && result <= len(b) ==> b[i] == byte(p.fixed)                      #C16 #C02
+
+//@ func (*Auth).fill
+//@   requires 0 <= i
+//@   assigns b[i:len(b)]
+//@   ensures result >= i + 2
+//@   ensures i < len(b) && result <= len(b) ==> b[i] == byte(p.fixed)                      #C16 #C02
+
+//@ func (*Publish).QoS
+//@   pure
+//@   ensures (p.fixed & 6) == 6 ==> result == 3
+//@   ensures (p.fixed & 6) == 4 ==> result == 2
+//@   ensures (p.fixed & 6) == 2 ==> result == 1
+//@   ensures (p.fixed & 6) == 0 ==> result == 0
+
+//@ func (*Publish).Duplicate
+//@   pure
+//@   ensures result == ((p.fixed & 8) != 0)
+
+//@ func (*Publish).Retain
+//@   pure
+//@   ensures result == ((p.fixed & 1) != 0)
